@@ -147,6 +147,7 @@ type harness struct {
 	harnessPanic interface{}
 	simEnd       int64
 	actorStuck   bool
+	abandon      bool // a known finding left the syncer unusable: skip the remaining phases
 }
 
 // ---- component.IComponentRequester -------------------------------------------------------
